@@ -250,3 +250,21 @@ def loop_index(X, st, e):
     if n not in st.env:
         raise VCError(f"loop_index({e.args[0].value}): not inside / after that loop")
     return st.env[n]
+
+
+@spec
+def __loopframe__(X, st, e):
+    """every list allocated at loop entry, other than the named local lists, has the length and content it had at loop entry"""
+    h0 = st.meta["entry_heap"]
+    l = fresh("l")
+    names = [a.value for a in e.args]
+    excl = []
+    for n in names:
+        v = st.meta.get("entry_env", {}).get(n)
+        if isinstance(v, ListV):
+            excl.append(l != v.v)
+        v2 = st.env.get(n)
+        if isinstance(v2, ListV):
+            excl.append(l != v2.v)
+    same = z3.And(st.heap["@len"][l] == h0["@len"][l], st.heap["@el"][l] == h0["@el"][l])
+    return BoolV(safe_forall([l], z3.Implies(z3.And(h0["@alloc"][l], *excl), same), patterns=[st.heap["@len"][l], st.heap["@el"][l]]))
